@@ -193,7 +193,10 @@ def run(ctx):
     # ---------------- sampler populations keep the requested precision
     for nsname in NS:
         for w in WN:
-            for kind, answers in (("minipcn_smc", None), ("importance", None), ("minipcn_smc", "other"), ("importance", "other")):
+            for kind, answers in (("minipcn_smc", None), ("importance", None), ("minipcn_smc", "other"), ("importance", "other"),
+                                  ("minipcn", None), ("emcee", None)):
+                if kind == "emcee" and nsname != "numpy":
+                    continue
                 try:
                     tgt0 = sd.Target(2, s=1.0, c=0.3, prior="normal")
                     if answers == "other":        # the user's model answers in the OTHER width than the one requested
@@ -214,3 +217,42 @@ def run(ctx):
                             ctx.violation(f"sampler-precision:{kind}:{where.split('[')[0]}:{fname}", f"{kind} run requested {w} in {nsname}: {where}.{fname} is {arr.dtype}",
                                           {"kind": kind, "ns": nsname, "w": w, "where": where, "model_answers_in": tgt0.answers_in})
                             break
+    # ---------------- "proposal outputs can be consumed in any supported sample namespace": the library's OWN trained flow (zuko)
+    # as the proposal of an SMC kernel and as the preconditioning map, in every namespace — the kernel's target evaluation, the
+    # conversion of log q into the population's namespace, and the flow seen as a map
+    try:
+        from aspire import Aspire
+        from aspire.samples import Samples, SMCSamples
+        rng0 = np.random.default_rng(3)
+        for nsname, xp in NS.items():
+            tgt = sd.Target(2, s=1.0, c=0.3, prior="normal")
+            case = {"flow_backend": "zuko", "ns": nsname}
+            ctx.count(("own-flow", nsname), True, kind="library-flow-as-proposal")
+            try:
+                a = Aspire(log_likelihood=tgt.log_likelihood, log_prior=tgt.log_prior, dims=2, parameters=["mass", "spin"], flow_backend="zuko", xp=xp)
+                a.fit(Samples(rng0.normal(size=(60, 2)), xp=xp, parameters=["mass", "spin"]), n_epochs=1)
+            except Exception as e:
+                ctx.violation(f"own-flow:fit:{nsname}:{type(e).__name__}", f"fitting the zuko flow from {nsname} samples raised {e!r:.200}", case)
+                continue
+            pts = rng0.normal(size=(5, 2))
+            for what in ("log_q into the population's namespace", "kernel target (SMCSampler.log_prob)", "flow as preconditioning map"):
+                try:
+                    if what.startswith("log_q"):
+                        pop = SMCSamples(pts, xp=xp, beta=0.0)
+                        got = pop.array_to_namespace(a.flow.log_prob(pop.x))
+                        ok = nsutil.NS_OF(pop) == nsname and len(nsutil.to_list(got)) == 5
+                    elif what.startswith("kernel"):
+                        smp = a.init_sampler("minipcn_smc", preconditioning="none")
+                        got = smp.log_prob(pts if nsname == "numpy" else xp.asarray(pts, dtype=smp.dtype), 0.5)
+                        ok = bool(np.all(np.isfinite(np.asarray(nsutil.to_list(got), float))))
+                    else:
+                        smp = a.init_sampler("minipcn_smc", preconditioning="flow", preconditioning_kwargs={"fit_kwargs": {"n_epochs": 1}})
+                        z = smp.fit_preconditioning_transform(pts if nsname == "numpy" else xp.asarray(pts, dtype=smp.dtype))
+                        ok = len(nsutil.to_list(z)) == 5
+                    if not ok:
+                        ctx.violation(f"own-flow:{what.split(' ')[0]}:{nsname}", f"{what}: unusable result in {nsname}", dict(case, what=what))
+                except Exception as e:
+                    ctx.violation(f"own-flow:{what.split(' ')[0]}:{nsname}:{type(e).__name__}", f"{what} with the library's zuko flow in the {nsname} namespace raised {e!r:.200}",
+                                  dict(case, what=what))
+    except ImportError as e:
+        ctx.oblig("search:library-flow-available", False, repr(e))
